@@ -27,6 +27,7 @@ Apply(st, e) ==
     [] e.op = "RevertToCheckpoint" -> RevertToCheckpoint(st, cps[e.cp])
     [] e.op = "SetLimits" -> SetLimits(st, e.entry, e.buffer)
     [] e.op = "Get" -> Get(st, e.k)
+    [] e.op = "BatchGet" -> Ret("ok", SelectSeq([i \in 1..Len(e.ks) |-> [k |-> e.ks[i], v |-> ValOf(st, e.ks[i])]], LAMBDA p : p.v # NoVal), st)
     [] e.op = "Iter" -> Iter(st, e.lo, e.hi)
     [] e.op = "IterReverse" -> IterReverse(st, e.hi, e.lo)
     [] e.op = "SnapIter" -> SnapIter(st, e.lo, e.hi)
